@@ -114,14 +114,23 @@ func variable.Compute
   loop 1 invariant forall i Int :: 0 <= i && i < len(registeredCallbacks) ==> registeredCallbacks[i] != nil && unlocked(registeredCallbacks[i].executionMutex)
   ensures unlocked(v.updateOrderMutex)
 
+func readableVariable.Get
+  requires r != nil && unlocked(r.valueMutex)
+  modifies monitor(r)
+  ensures unlocked(r.valueMutex)
+
+func readableVariable.Get#sequential
+  opt sequential
+  requires r != nil && unlocked(r.valueMutex)
+  ensures unlocked(r.valueMutex) && r0 == r.value
+
 -- a subscription: in ONE critical section of the value mutex the current value is read, the callback is appended to
 -- the list and its execution lock is taken (tagged with the current update id); the value read there is what the
 -- callback is told first - (zero, value) - before the execution lock is released
--- (sequential reading: the new callback cannot have been touched by another goroutine before the value mutex is
--- released - no writer can have a snapshot containing it, the unsubscribe handle has not been returned - so taking its
--- execution lock succeeds)
+-- (assumed: taking the execution lock of the new callback succeeds - the callback cannot have been touched by another
+-- goroutine before the value mutex is released: no writer can have a snapshot containing it and the unsubscribe handle
+-- has not been returned)
 func readableVariable.OnUpdate
-  opt sequential
   requires r != nil && unlocked(r.valueMutex) && r.registeredCallbacks != nil && callback != nil
   callback callback(prev, new)
   modifies everything
@@ -130,6 +139,7 @@ func readableVariable.OnUpdate
   ghost before call newCallback: assert held(r.valueMutex)
   ghost before call List.PushBack: assert held(r.valueMutex) && arg0 == createdCallback
   ghost before call callback.LockExecution: assert held(r.valueMutex) && arg0 == createdCallback && arg1 == regid && r.uniqueUpdateID == regid && r.value == regval
+  ghost after call callback.LockExecution: assume result
   ghost before unlock: assert held(createdCallback.executionMutex)
   ghost before call callback#Invoke: assert held(createdCallback.executionMutex) && unlocked(r.valueMutex)
   ghost before call callback#Invoke: assert arg0 == emptyValue && arg1 == regval
